@@ -23,9 +23,13 @@ def show_ops(ops):
             out.append(f"SQ(t{o[1]},c{o[2]:02d})")
         elif o[0] == "SN":
             out.append(f"SN(t{o[1]},c{o[2]:02d})")
+        elif o[0] == "SLOW":
+            out.append(f"SLOW(seg {o[1]},t{o[2]},.{o[3]})")
+        elif o[0] == "SLEEP":
+            out.append(f"SLEEP({o[1]})")
         elif o[0] == "HIDE":
             out.append(f"HIDE(seg#{o[1]},t{o[2]})")
-        elif o[0] in ("BGC", "JOINC", "JOIN", "SETTLE", "UNHIDE", "CSNAP"):
+        elif o[0] in ("BGC", "JOINC", "JOIN", "SETTLE", "UNHIDE", "CSNAP", "DRAIN"):
             out.append(o[0])
         elif o[0] == "WAITMORE":
             out.append(f"WAITMORE({o[1]},{o[2]})")
